@@ -551,17 +551,25 @@ type wsResult struct {
 	anomaly  []string
 	ctlItems []sl.Item
 	short    bool // fewer frame messages than delivered packets arrived within the budget
+	badMsg   bool // a message that is neither a response nor a frame was seen: the run was cut there
 }
 
 func runWs(fx *sl.Fixture, w wsCase) (res wsResult) {
+	var c *sl.Conn
+	start := -1
 	defer func() {
 		if r := recover(); r != nil {
 			res.err = fmt.Sprint("harness panic: ", r)
 		}
+		if res.msgs == nil && c != nil && start >= 0 {
+			// the run was cut: what did arrive is still judged message by message
+			if m := c.Messages(); len(m) >= start {
+				res.msgs = m[start:]
+			}
+		}
 	}()
 	fx.Ensure()
 	sl.WaitUntil(func() bool { return fx.Stream.ConsumerCount() == 0 })
-	var c *sl.Conn
 	var err error
 	if w.flav == "ws" {
 		c, err = sl.DialWS(fx.Path)
@@ -590,6 +598,11 @@ func runWs(fx *sl.Fixture, w wsCase) (res wsResult) {
 				res.anomaly = append(res.anomaly, it.What)
 				if it.What == "empty message" {
 					frames++ // counted so that the harness does not wait for it twice
+				} else if it.Data || w.flav == "ws" {
+					// a message on the media side that is neither a response nor a frame: nothing more to wait
+					// for, the messages received so far are judged
+					res.badMsg = true
+					return false
 				}
 			case sl.KResp:
 				if !it.Data {
@@ -664,7 +677,7 @@ func runWs(fx *sl.Fixture, w wsCase) (res wsResult) {
 			}
 		}
 	}
-	start := len(c.Messages())
+	start = len(c.Messages())
 	frames = 0
 	res.anomaly = nil
 	chans := [4]int{w.vch, -1, w.ach, -1}
@@ -886,6 +899,7 @@ func runC13(c *Ctx) {
 	}
 
 	// ---- tear
+	fullReruns := 0 // confirming re-runs made with the full watchdog so far
 	var lines []string
 	var tres []tearResult
 	for _, t := range tears {
@@ -895,8 +909,11 @@ func runC13(c *Ctx) {
 			// session went away, …): a busy machine must not become a finding.  Run the case once more,
 			// alone, with the full budgets, and report what that run shows.
 			c.Count("tear-rerun")
-			sl.FullBudgets()
-			parkBudget = sl.Watchdog
+			if fullReruns < 3 {
+				sl.FullBudgets()
+				parkBudget = sl.Watchdog
+			}
+			fullReruns++
 			res = runTear(fx, t)
 		}
 		tres = append(tres, res)
@@ -992,15 +1009,19 @@ func runC13(c *Ctx) {
 	var wres []wsResult
 	wsIncomplete := func(res wsResult) bool {
 		// a run that ended with an error, or in which fewer messages than delivered packets arrived
-		// within the budget, is repeated once alone with the full budgets before anything is said
-		return res.err != "" || res.short
+		// within the budget, is repeated once alone (the first few times with the full budgets) before
+		// anything is said; not when a bad message was seen: that is judged as it is
+		return (res.err != "" || res.short) && !res.badMsg
 	}
 	for _, w := range wss {
 		res := runWs(fx, w)
 		if wsIncomplete(res) {
 			c.Count("wsmsg-rerun")
-			sl.FullBudgets()
-			parkBudget = sl.Watchdog
+			if fullReruns < 3 {
+				sl.FullBudgets()
+				parkBudget = sl.Watchdog
+			}
+			fullReruns++
 			res = runWs(fx, w)
 		}
 		wres = append(wres, res)
@@ -1017,10 +1038,6 @@ func runC13(c *Ctx) {
 		c.Eval(w.line(), len(res.expect) > 0)
 		c.Count("wsmsg-" + w.flav)
 		c.CountN("wsmsg-messages", len(res.msgs))
-		if res.err != "" {
-			c.Find(Finding{Kind: "corr", Class: "ws-run-incomplete", Case: w.line(), Impl: res.err, Model: "every request is answered"})
-			continue
-		}
 		var gotFrames []string
 		nresp := 0
 		bad := ""
@@ -1058,6 +1075,10 @@ func runC13(c *Ctx) {
 				break
 			}
 			k++
+		}
+		if bad == "" && res.err != "" {
+			c.Find(Finding{Kind: "corr", Class: "ws-run-incomplete", Case: w.line(), Impl: res.err, Model: "every request is answered"})
+			continue
 		}
 		if bad != "" {
 			c.Find(Finding{Kind: "oracle", Class: "ws-message-" + bad, Case: w.line(), Impl: fmt.Sprintf("%d messages, first bad one: %s", len(res.msgs), bad), Spec: "every message is one complete response or frame"})
